@@ -430,3 +430,69 @@ def dead_in_batch_builder(g, E, do, length):
         for user in ("alice", "bob"):
             do(_req(g, [g.ch(ops)()], ver, user=user))
         do(_req(g, [{"op": "locate", "max": None, "offset": None, "attrs": []}], ver))
+
+
+def twin_builder(g, E, do, length):
+    """Two users, two groups, two names that are EQUAL under some reading other than code point equality (TWINS of the
+    generator) and unequal as strings.  One user creates objects carrying BOTH group spellings and both name
+    spellings; the other user - his twin - tries everything on them; then attribute operations address ONE spelling
+    (by value under 2.0, by index before).  A twin is another user / group / name (mon_c03, mon_c15, mon_c14)."""
+    from gen_engine import TWINS
+    r = g.r
+    ver = g.ch([12, 14, 20, 20])
+    raw_do = do
+
+    def do(j):
+        o = raw_do(j)
+        if j.get("cmd") == "req":
+            raw_do({"cmd": "dump"})
+        return o
+    ua, ub = g.ch(TWINS)
+    ga, gb = [x + "-team" for x in g.ch(TWINS)]
+    na, nb = g.ch(TWINS)
+    if g.p(0.5):
+        ua, ub = ub, ua
+    if g.p(0.5):
+        ga, gb = gb, ga
+    tx = lambda v: {"k": "text", "v": v}
+    nm = lambda v: {"k": "name", "v": v, "t": 1}
+    cur = lambda n, v: {"name": n, "index": None, "value": v}
+
+    def mk(user, groups, names):
+        attrs = [_A("Cryptographic Algorithm", "enum", 3), _A("Cryptographic Length", "int", 128),
+                 _A("Cryptographic Usage Mask", "int", 12)]
+        attrs += [_A("Object Group", "text", x, i) for i, x in enumerate(groups)]
+        attrs += [_A("Name", "name", x, i, t=1) for i, x in enumerate(names)]
+        return _uid(do(_req(g, [{"op": "create", "otype": 2, "tmpl": {"tnames": 0, "attrs": attrs},
+                                 "crypto": {"k": "ok", "t": hexof(16, rnd=r)}}], ver, user=user)))
+    X = mk(ua, [ga, gb], [na, nb])          # both spellings on one object
+    Y = mk(ua, [ga], [na])                  # one spelling only
+    Z = mk(ub, [gb], [nb])                  # the twin user's own object with the other spelling
+    if None in (X, Y, Z):
+        return
+    # the twin user meets the objects of the first
+    for u in (X, Y):
+        for it in ({"op": "get", "uid": u, "format": None, "compression": False, "wrap": None},
+                   {"op": "getAttributes", "uid": u, "names": []}, {"op": "activate", "uid": u}):
+            if g.p(0.7):
+                do(_req(g, [dict(it)], ver, user=ub))
+    do(_req(g, [{"op": "locate", "max": None, "offset": None, "attrs": [_A("Object Group", "text", ga)]}], ver, user=ub))
+    do(_req(g, [{"op": "locate", "max": None, "offset": None, "attrs": [_A("Name", "name", nb, t=1)]}], ver, user=ua))
+    # one spelling addressed; the other (and the other objects) stay
+    if ver >= 20:
+        steps = [(ua, {"op": "deleteAttribute", "uid": X, "name": None, "index": None, "current": cur("Object Group", tx(gb)), "reference": None}),
+                 (ua, {"op": "deleteAttribute", "uid": Y, "name": None, "index": None, "current": cur("Object Group", tx(gb)), "reference": None}),
+                 (ua, {"op": "modifyAttribute", "uid": X, "attr": None, "current": cur("Name", nm(nb)), "new": cur("Name", nm("renamed"))}),
+                 (ua, {"op": "deleteAttribute", "uid": Y, "name": None, "index": None, "current": cur("Name", nm(nb)), "reference": None}),
+                 (ub, {"op": "deleteAttribute", "uid": Z, "name": None, "index": None, "current": cur("Object Group", tx(ga)), "reference": None})]
+    else:
+        steps = [(ua, {"op": "deleteAttribute", "uid": X, "name": "Object Group", "index": 1, "current": None, "reference": None}),
+                 (ua, {"op": "modifyAttribute", "uid": X, "attr": {"name": "Name", "index": 1, "value": nm("renamed")}, "current": None, "new": None}),
+                 (ua, {"op": "modifyAttribute", "uid": Y, "attr": {"name": "Object Group", "index": 0, "value": tx(gb)}, "current": None, "new": None}),
+                 (ub, {"op": "deleteAttribute", "uid": Z, "name": "Name", "index": 0, "current": None, "reference": None})]
+    r.shuffle(steps)
+    for user, st in steps[:max(2, min(length, len(steps)))]:
+        do(_req(g, [dict(st)], ver, user=user))
+        do(_req(g, [{"op": "getAttributes", "uid": X, "names": []}], ver, user=ua))
+    do(_req(g, [{"op": "destroy", "uid": Z}], ver, user=ua))      # not his: his twin's
+    do(_req(g, [{"op": "locate", "max": None, "offset": None, "attrs": []}], ver, user=ub))
